@@ -364,3 +364,286 @@ pub fn gen14(r: &mut Rng, n: usize) -> Vec<String> {
     }
     out
 }
+
+// ---------------------------------------------------------------------------------------------
+// C12: piece bookkeeping histories on the real Session.
+
+fn snap12(s: &mut Session) -> String {
+    let st = statuses_str(&s.verif_statuses().clone());
+    let mut v: Vec<(usize, String)> = s
+        .verif_peers()
+        .iter()
+        .map(|(addr, p)| {
+            let k = idx_of(addr);
+            (
+                k,
+                format!(
+                    "{}:{}:{}{}{}",
+                    k,
+                    match p.piece_index {
+                        Some(i) => i.to_string(),
+                        None => "-".into(),
+                    },
+                    if p.choked { 'c' } else { 'u' },
+                    if p.am_interested { 'I' } else { 'n' },
+                    if p.interested { 'i' } else { 'n' }
+                ),
+            )
+        })
+        .collect();
+    v.sort();
+    let ps = if v.is_empty() { "-".to_string() } else { v.into_iter().map(|x| x.1).collect::<Vec<_>>().join(",") };
+    format!("{}|{}", st, ps)
+}
+
+/// Apply one op; returns the reply token (`Rq<i>`, `Ri<i>`, `In`, `Ni`, `Pk`, `Ig`, `-`, `E`).
+async fn apply12(s: &mut Session, op: &str) -> String {
+    use tokio::sync::oneshot;
+    let (c, rest) = op.split_at(1);
+    let (kstr, arg) = match rest.split_once(':') {
+        Some((k, a)) => (k, a),
+        None => (rest, ""),
+    };
+    let k: usize = kstr.parse().unwrap();
+    let addr = addr_of(k);
+    let req = |r: &ReqData| r.piece_index;
+    match c {
+        "a" => {
+            s.verif_add_peer(addr, None);
+            "-".into()
+        }
+        "k" => {
+            s.verif_kill_peer(&addr).await;
+            "-".into()
+        }
+        "c" => match s.verif_handle_peer_cmd(PeerCmd::RecvChoke { addr }).await {
+            Ok(_) => "-".into(),
+            Err(_) => "E".into(),
+        },
+        "i" => match s.verif_handle_peer_cmd(PeerCmd::RecvInterested { addr }).await {
+            Ok(_) => "-".into(),
+            Err(_) => "E".into(),
+        },
+        "u" => {
+            let (tx, rx) = oneshot::channel();
+            match s.verif_handle_peer_cmd(PeerCmd::RecvUnchoke { addr, resp_ch: tx }).await {
+                Ok(_) => match rx.await {
+                    Ok(UnchokeCmd::SendInterestedAndRequest(r)) => format!("Ri{}", req(&r)),
+                    Ok(UnchokeCmd::SendRequest(r)) => format!("Rq{}", req(&r)),
+                    Ok(UnchokeCmd::SendNotInterested) => "Ni".into(),
+                    Ok(UnchokeCmd::Ignore) => "Ig".into(),
+                    Err(_) => "E".into(),
+                },
+                Err(_) => "E".into(),
+            }
+        }
+        "n" => {
+            let (tx, rx) = oneshot::channel();
+            match s.verif_handle_peer_cmd(PeerCmd::RecvNotInterested { addr, resp_ch: tx }).await {
+                Ok(_) => match rx.await {
+                    Ok(NotInterestedCmd::PrepareKill) => "Pk".into(),
+                    Ok(NotInterestedCmd::Ignore) => "Ig".into(),
+                    Err(_) => "E".into(),
+                },
+                Err(_) => "E".into(),
+            }
+        }
+        "h" => {
+            let (tx, rx) = oneshot::channel();
+            let cmd = PeerCmd::RecvHave { addr, piece_index: arg.parse().unwrap(), resp_ch: tx };
+            match s.verif_handle_peer_cmd(cmd).await {
+                Ok(_) => match rx.await {
+                    Ok(HaveCmd::SendInterestedAndRequest(r)) => format!("Ri{}", req(&r)),
+                    Ok(HaveCmd::SendInterested) => "In".into(),
+                    Ok(HaveCmd::Ignore) => "Ig".into(),
+                    Err(_) => "E".into(),
+                },
+                Err(_) => "E".into(),
+            }
+        }
+        "b" => {
+            let (tx, rx) = oneshot::channel();
+            let cmd = PeerCmd::RecvBitfield { addr, bitfield: Bitfield::from_vec(&parse_bits(arg)), resp_ch: tx };
+            match s.verif_handle_peer_cmd(cmd).await {
+                Ok(_) => match rx.await {
+                    Ok(BitfieldCmd::SendState { am_interested, .. }) => (if am_interested { "BI" } else { "Bn" }).into(),
+                    Err(_) => "E".into(),
+                },
+                Err(_) => "E".into(),
+            }
+        }
+        "d" | "x" => {
+            let (tx, rx) = oneshot::channel();
+            let cmd = if c == "d" {
+                PeerCmd::PieceDone { addr, resp_ch: tx }
+            } else {
+                PeerCmd::PieceCancel { addr, resp_ch: tx }
+            };
+            match s.verif_handle_peer_cmd(cmd).await {
+                Ok(_) => match rx.await {
+                    Ok(PieceCmd::SendRequest(r)) => format!("Rq{}", req(&r)),
+                    Ok(PieceCmd::SendNotInterested) => "Ni".into(),
+                    Ok(PieceCmd::PrepareKill) => "Pk".into(),
+                    Ok(PieceCmd::Ignore) => "Ig".into(),
+                    Err(_) => "E".into(),
+                },
+                Err(_) => "E".into(),
+            }
+        }
+        _ => panic!("bad C12 op {}", op),
+    }
+}
+
+/// `hist <npieces> <tie-seed> <ops>` → per op `reply|statuses|peers`, `PANIC` if the manager panicked.
+fn op_hist12(np: usize, tie_seed: u64, ops: &str) -> String {
+    set_tie_break_seed(Some(tie_seed));
+    let ops: Vec<String> = ops.split(';').map(|s| s.to_string()).collect();
+    let mut out: Vec<String> = vec![];
+    let r = catch(|| {
+        rt().block_on(async {
+            let mut s = Session::new(metainfo(np, 16384, 16384), own_id());
+            let mut res: Vec<String> = vec![];
+            for op in ops.iter() {
+                // a panic inside must not lose what was observed so far
+                let step = std::panic::AssertUnwindSafe(apply12(&mut s, op));
+                let reply = match futures_catch(step).await {
+                    Ok(r) => r,
+                    Err(()) => {
+                        res.push("PANIC".into());
+                        return res;
+                    }
+                };
+                res.push(format!("{}|{}", reply, snap12(&mut s)));
+            }
+            res
+        })
+    });
+    set_tie_break_seed(None);
+    match r {
+        Ok(v) => out.extend(v),
+        Err(()) => out.push("PANIC".into()),
+    }
+    out.join(";")
+}
+
+/// Poll a future to completion catching a panic raised by any poll.
+async fn futures_catch<F: std::future::Future>(f: std::panic::AssertUnwindSafe<F>) -> Result<F::Output, ()> {
+    let mut f = Box::pin(f.0);
+    std::future::poll_fn(move |cx| {
+        match std::panic::catch_unwind(std::panic::AssertUnwindSafe(|| f.as_mut().poll(cx))) {
+            Ok(std::task::Poll::Ready(v)) => std::task::Poll::Ready(Ok(v)),
+            Ok(std::task::Poll::Pending) => std::task::Poll::Pending,
+            Err(_) => std::task::Poll::Ready(Err(())),
+        }
+    })
+    .await
+}
+
+pub fn run12(args: &[&str]) -> String {
+    match args[0] {
+        "hist" => op_hist12(args[1].parse().unwrap(), args[2].parse().unwrap(), args[3]),
+        _ => panic!("unknown C12 op"),
+    }
+}
+
+/// Generate histories; the enabledness of `d`/`x` follows the connection task's own rule for `piece_rx`
+/// (set by a reply with request data, cleared on done/cancel and on an unchoke answered without request).
+pub fn gen12(r: &mut Rng, n: usize) -> Vec<String> {
+    let mut out = vec![];
+    for _ in 0..n {
+        let np = match r.below(3) {
+            0 => 3 + r.below(5) as usize,
+            1 => 9 + r.below(4) as usize,
+            _ => 3 + r.below(12) as usize,
+        };
+        let max_peers = 1 + r.below(4) as usize;
+        let tie_seed = r.next() % 1_000_000;
+        let steps = 4 + r.below(40) as usize;
+        let mut ops: Vec<String> = vec![];
+        let mut present: Vec<usize> = vec![];
+        // replay-based generation: run the prefix on the implementation to know rx / statuses
+        let mut rx: std::collections::HashMap<usize, Option<usize>> = Default::default();
+        let mut have: Vec<bool> = vec![false; np];
+        for _ in 0..steps {
+            let roll = r.below(100);
+            let op: String;
+            if present.is_empty() || (roll < 12 && present.len() < max_peers) {
+                let k = loop {
+                    let k = r.below(max_peers as u64 + 1) as usize;
+                    if !present.contains(&k) {
+                        break k;
+                    }
+                };
+                present.push(k);
+                rx.insert(k, None);
+                ops.push(format!("a{}", k));
+                let dens = 30 + r.below(70);
+                let bits: Vec<bool> = (0..np).map(|_| r.below(100) < dens).collect();
+                op = format!("b{}:{}", k, &bits_str(&bits)[1..]);
+            } else {
+                let k = *r.pick(&present);
+                let has_rx = rx[&k].is_some();
+                op = match roll {
+                    12..=24 => format!("u{}", k),
+                    25..=34 => format!("c{}", k),
+                    35..=39 => format!("i{}", k),
+                    40..=44 => format!("n{}", k),
+                    45..=54 => format!("h{}:{}", k, r.below(np as u64)),
+                    55..=59 => {
+                        let dens = 30 + r.below(70);
+                        let bits: Vec<bool> = (0..np).map(|_| r.below(100) < dens).collect();
+                        format!("b{}:{}", k, &bits_str(&bits)[1..])
+                    }
+                    60..=84 if has_rx => format!("d{}", k),
+                    85..=92 if has_rx && have[rx[&k].unwrap()] => format!("x{}", k),
+                    93..=96 => {
+                        present.retain(|x| *x != k);
+                        format!("k{}", k)
+                    }
+                    _ => format!("u{}", k),
+                };
+            }
+            ops.push(op.clone());
+            // observe the implementation's reply to keep the ghost `rx` in step
+            let res = op_hist12(np, tie_seed, &ops.join(";"));
+            let last = res.rsplit(';').next().unwrap().to_string();
+            if last == "PANIC" {
+                break;
+            }
+            let reply = last.split('|').next().unwrap().to_string();
+            let (c, rest) = op.split_at(1);
+            let k: usize = rest.split(':').next().unwrap().parse().unwrap();
+            let idx = |s: &str| s[2..].parse::<usize>().ok();
+            match c {
+                "u" => {
+                    rx.insert(k, if reply.starts_with('R') { idx(&reply) } else { None });
+                }
+                "h" => {
+                    if reply.starts_with('R') {
+                        rx.insert(k, idx(&reply));
+                    }
+                }
+                "d" | "x" => {
+                    if c == "d" {
+                        if let Some(Some(y)) = rx.get(&k) {
+                            have[*y] = true;
+                        }
+                    }
+                    rx.insert(k, if reply.starts_with('R') { idx(&reply) } else { None });
+                }
+                "k" => {
+                    rx.remove(&k);
+                }
+                _ => {}
+            }
+            // PrepareKill ends the connection task: its only remaining event is the kill request
+            if reply == "Pk" {
+                ops.push(format!("k{}", k));
+                present.retain(|x| *x != k);
+                rx.remove(&k);
+            }
+        }
+        out.push(format!("hist {} {} {}", np, tie_seed, ops.join(";")));
+    }
+    out
+}
